@@ -14,7 +14,7 @@
      event, the results of espconn_sent and all timing are unconstrained. *)
 From Coq Require Import List ZArith Bool.
 Import ListNotations.
-From V Require Import Base.Bytes Base.Iface Gen.ProtoConsts Gen.C04Consts C04.Model C04.Proofs.
+From V Require Import Base.Bytes Base.Iface Gen.ProtoConsts Gen.C04Consts C04.Model C04.Proofs C04.Timing.
 Local Open Scope Z_scope.
 
 (* The generated list of every srpc_*async* call site of the device sources is what the theorems rest on:
@@ -76,6 +76,52 @@ Theorem C04_stop_disconnects : forall s,
   In (mk O_DISCONNECT [now s] []) (outs (devconn_stop s)) /\ srpc (devconn_stop s) = None /\ started (devconn_stop s) = false.
 Proof. exact devconn_stop_disconnects. Qed.
 Print Assumptions C04_stop_disconnects.
+
+(* ---------- fuel-free semantics ----------
+   The executable model runs the timer queue with a fuel bound (and reports FUEL / sets `stuck` when it is exhausted,
+   which the correspondence run would show as a disagreement).  The theorems do not depend on that bound: `Advance`,
+   `rstep`, `RRun` (C04/Timing.v) define the same semantics as an inductive relation without fuel, the executable
+   functions refine it whenever they do not get stuck, and every theorem above is also proved for `rreachable`
+   (reachability in the relation; J bounds the lateness script). *)
+Theorem C04_model_refines_relation : forall cs cc J b cyc d pay lt evs, Forall (fun l => 0 <= l <= J) lt ->
+  stuck (run_from (boot_device b cyc d pay lt cs cc) evs) = false ->
+  rreachable cs cc J (run_from (boot_device b cyc d pay lt cs cc) evs).
+Proof. exact run_rreachable. Qed.
+Print Assumptions C04_model_refines_relation.
+
+Theorem C04_fuel_free : forall cs cc J s p, rreachable cs cc J s -> srpc s = Some p ->
+  sid p = conn s /\
+  (registered s = 0 -> hist p = []) /\
+  (registered s <> 0 -> exists l, hist p = l ++ [CALL_REGISTER_E] /\ forall c, In c l -> is_reg c = false) /\
+  (registered s = 1 <-> got_ok p = true) /\
+  (got_ok p = false -> forall c, In c (hist p) -> originated c = false) /\
+  (forall t, refused_at p = Some t -> armed (t_stop s) = true /\ due (t_stop s) = t + STOP_DELAY_MS * 1000).
+Proof. intros cs cc J. exact (C04_fuel_free_thm cs cc J C04_sites_guarded). Qed.
+Print Assumptions C04_fuel_free.
+
+Theorem C04_clean_restart_fuel_free : forall cs cc J s s',
+  cs || cc = true -> rreachable cs cc J s -> halted s = false -> link s = L_PENDING -> rstep s ConnCb s' ->
+  espbuf s' = [] /\ recvbuf s' = [] /\ registered s' = 0 /\ srpc s' = Some (fresh_instance (conn s + 1) (now s)) /\ conn s' = conn s + 1.
+Proof. intros cs cc J. exact (C04_clean_restart_fuel_free_thm cs cc J C04_sites_guarded). Qed.
+Print Assumptions C04_clean_restart_fuel_free.
+
+Theorem C04_refusal_stops_fuel_free : forall cs cc J s dt s',
+  rreachable cs cc J s -> 0 <= dt -> halted s = false -> rstep s (Adv dt) s' -> halted s' = false ->
+  forall p' t', srpc s' = Some p' -> refused_at p' = Some t' -> now s + dt < t' + STOP_DELAY_MS * 1000.
+Proof. intros cs cc J. exact (C04_refusal_stops_fuel_free_thm cs cc J C04_sites_guarded). Qed.
+Print Assumptions C04_refusal_stops_fuel_free.
+
+(* the registration is issued within one iterate period (100 ms) + lateness J of the connect callback:
+   while `registered = 0` the clock has not passed created_at + 100 ms + J; afterwards the history ends with the registration *)
+Theorem C04_register_within : forall cs cc J s p, 0 <= J -> rreachable cs cc J s -> srpc s = Some p ->
+  (registered s = 0 -> now s <= created_at p + ITERATE_MS * 1000 + J) /\
+  (created_at p + ITERATE_MS * 1000 + J < now s -> exists l, hist p = l ++ [CALL_REGISTER_E] /\ forall c, In c l -> is_reg c = false).
+Proof.
+  intros cs cc J s p HJ HR Hp. split.
+  - exact (register_within_thm J HJ cs cc s p C04_sites_guarded HR Hp).
+  - exact (register_sent_thm J HJ cs cc s p C04_sites_guarded HR Hp).
+Qed.
+Print Assumptions C04_register_within.
 
 (* without either clearing (the tree before docs/fixes/C04_stop_clears_buffers.diff) the clean-restart clause is false *)
 Theorem C04_old_code_refuted :
